@@ -382,6 +382,12 @@ func (p *Peer) handleReplicatorFailure(ctx context.Context, peerID, docID string
 }
 
 func (p *Peer) handleCompletedReplicatorRetry(ctx context.Context, peerID string, success bool) error {
+	// The end of a retry round and the recording of a failed push touch the same keys. Their
+	// transactions must not overlap: the loser of a conflict is only logged, which either leaves
+	// the retry flagged as "retrying" for ever or drops the record of the failed push.
+	p.handleRetryMutex.Lock()
+	defer p.handleRetryMutex.Unlock()
+
 	clientTxn, err := p.db.NewTxn(ctx, false)
 	if err != nil {
 		return err
@@ -561,6 +567,9 @@ func (p *Peer) retryReplicators(ctx context.Context) {
 }
 
 func (p *Peer) setReplicatorAsRetrying(ctx context.Context, key keys.ReplicatorRetryIDKey, rInfo retryInfo) error {
+	p.handleRetryMutex.Lock()
+	defer p.handleRetryMutex.Unlock()
+
 	rInfo.Retrying = true
 	rInfo.NumRetries++
 	b, err := cbor.Marshal(rInfo)
@@ -645,7 +654,7 @@ func (p *Peer) retryReplicator(ctx context.Context, peerID string) {
 			log.ErrorContextE(ctx, "Failed to parse retry doc key", err)
 			continue
 		}
-		err = p.retryDoc(ctx, peerID, key.DocID)
+		err = p.retryDocAndClearRecord(ctx, peerID, key)
 		if err != nil {
 			log.ErrorContextE(ctx, "Failed to retry doc", err)
 			err = p.handleCompletedReplicatorRetry(ctx, peerID, false)
@@ -655,16 +664,32 @@ func (p *Peer) retryReplicator(ctx context.Context, peerID string) {
 			// if one doc fails, stop retrying the rest and just wait for the next retry
 			return
 		}
-		err = datastore.PeerstoreFrom(p.db.Rootstore()).Delete(ctx, key.Bytes())
-		if err != nil {
-			log.ErrorContextE(ctx, "Failed to delete retry docID", err)
-		}
 	}
 
 	err = p.handleCompletedReplicatorRetry(ctx, peerID, true)
 	if err != nil {
 		log.ErrorContextE(ctx, "Failed to handle completed replicator retry", err)
 	}
+}
+
+// retryDocAndClearRecord pushes the current heads of a document and removes its retry record.
+//
+// Both happen under the mutex that guards the recording of failed pushes: a push of a newer head
+// that fails meanwhile is recorded after the removal instead of being wiped by it (the heads are
+// read after the lock is taken, so a failure recorded before is covered by this push).
+func (p *Peer) retryDocAndClearRecord(ctx context.Context, peerID string, key keys.ReplicatorRetryDocIDKey) error {
+	p.handleRetryMutex.Lock()
+	defer p.handleRetryMutex.Unlock()
+
+	err := p.retryDoc(ctx, peerID, key.DocID)
+	if err != nil {
+		return err
+	}
+	err = datastore.PeerstoreFrom(p.db.Rootstore()).Delete(ctx, key.Bytes())
+	if err != nil {
+		log.ErrorContextE(ctx, "Failed to delete retry docID", err)
+	}
+	return nil
 }
 
 type head struct {
